@@ -107,6 +107,25 @@ def close (recheck : Bool) (s : CS D) (h : Nat) : CS D × String :=
           ({ s1 with fs := s1.fs.set k.name none }, "err full-needed")
         else ({ s1 with fs := { s1.fs.set k.name (finalDir k) with fullNeeded := false } }, "ok")
 
+/-- Sink.Close when the final rename fails (the snapshot's final name is taken by a plain file):
+every step before the rename has happened, nothing after it -/
+def closeRenameFails (s : CS D) (h : Nat) : CS D × String :=
+  match getSink s h with
+  | none => (s, "nosink")
+  | some k =>
+    if !k.opened then (s, "ok")
+    else
+      let s1 := putSink s h { k with opened := false }
+      match k.hdr with
+      | .none => ({ s1 with fs := s1.fs.set k.name none }, "err incomplete")
+      | .rejected => ({ s1 with fs := s1.fs.set k.name none }, "err incomplete")
+      | .full _ _ .short => (s1, "err incomplete")
+      | .full _ _ .badcrc => (s1, "err crc")
+      | .full _ _ .ok => (s1, "err rename")
+      | .inc _ =>
+        if s.fs.fullNeeded then ({ s1 with fs := s1.fs.set k.name none }, "err full-needed")
+        else (s1, "err rename")
+
 /-- Sink.Cancel -/
 def cancel (s : CS D) (h : Nat) : CS D × String :=
   match getSink s h with
@@ -158,5 +177,34 @@ def crashClose (s : CS D) (h : Nat) (c : CloseCut) : CS D :=
     | some d, .filesInPlace => { fs := s.fs.set k.name (some { d with tmp := true, mt := none }), sinks := [] }
     | some d, .walDirMoved => { fs := s.fs.set k.name (some { tmp := true }), sinks := [] }
     | none, _ => { s with sinks := [] }
+
+/-! ### operation sequences -/
+
+inductive COp (D : Type) where
+  | create (h name index term : Nat)
+  | wfull (h : Nat) (d : D) (wals : List Nat) (v : Verdict)
+  | winc (h : Nat) (wals : List Nat)
+  | close (h : Nat)
+  | cancel (h : Nat)
+  | closeRenameFails (h : Nat)
+  | setFull
+  | reopen
+  | crashClose (h : Nat) (c : CloseCut)
+  | reap (newName : Nat)
+
+/-- one API operation (Close with the full-needed re-check) and its result -/
+def stepOp (A : DbAlg D) (s : CS D) : COp D → CS D × String
+  | .create h n i t => (create s h n i t, "ok")
+  | .wfull h d ws v => writeFull s h d ws v
+  | .winc h ws => writeInc s h ws
+  | .close h => close true s h
+  | .cancel h => cancel s h
+  | .closeRenameFails h => closeRenameFails s h
+  | .setFull => (setFull s, "ok")
+  | .reopen => reopen A s
+  | .crashClose h c => (crashClose s h c, "ok")
+  | .reap nn => reapOp A s nn
+
+def runOps (A : DbAlg D) (s : CS D) (ops : List (COp D)) : CS D := ops.foldl (fun s o => (stepOp A s o).1) s
 
 end RqModel.SnapCat
